@@ -710,21 +710,238 @@ func runAsync(r *mon.Run, idx int) {
 	}
 }
 
+// ---------------------------------------------------------------------------
+// Close / reconfigure overlap arm
+//
+// The writer is parked at the shut gate with a non-empty queue; dispatchers
+// hammer the emitter (so several are queued on its mutex at any instant); then
+// Close() or a second SetAsync() is issued while they are in flight. Both calls
+// legitimately block until the gate opens (they drain the old queue). What must
+// NOT happen is a dispatcher staying parked inside asyncEmitter.enqueue: the
+// gate is under the harness's control, so a goroutine that sits in
+// sync.(*Mutex).Lock under enqueue in two goroutine dumps taken one second
+// apart, while nothing else makes progress and the gate is still shut, is
+// waiting for the writer — "enqueueing never blocks" is refuted by that
+// witness, never by a timer alone.
+
+type overlapCase struct {
+	Variant     string `json:"variant"` // close | swap
+	Queue       int    `json:"queue"`
+	Preload     int    `json:"preload"`
+	Dispatchers int    `json:"dispatchers"`
+	DelayUs     int64  `json:"closer_delay_us"`
+}
+
+var overlapBlocked atomic.Bool
+
+// parkedInEnqueue returns the ids of goroutines that a dump shows blocked on a
+// mutex with asyncEmitter.enqueue on their stack.
+func parkedInEnqueue(dump string) map[string]bool {
+	out := map[string]bool{}
+	for _, g := range strings.Split(dump, "\n\n") {
+		head, _, _ := strings.Cut(g, "\n")
+		if !strings.HasPrefix(head, "goroutine ") || !strings.Contains(g, "asyncEmitter).enqueue") {
+			continue
+		}
+		if strings.Contains(head, "sync.Mutex.Lock") || strings.Contains(head, "semacquire") {
+			out[strings.Fields(head)[1]] = true
+		}
+	}
+	return out
+}
+
+func runOverlap(r *mon.Run, idx int) {
+	if overlapBlocked.Load() {
+		return
+	}
+	rng := r.Rand(3, uint64(idx))
+	oc := overlapCase{Variant: []string{"close", "swap", "swap"}[idx%3], Queue: 4 + rng.IntN(29), Dispatchers: 8 + rng.IntN(17), DelayUs: int64(50 + rng.IntN(450))}
+	oc.Preload = 2 + rng.IntN(oc.Queue-1)
+	sk := newSink(true, 0)
+	h := vgirpc.NewAccessLogHook(sk, "")
+	if err := h.SetAsync(oc.Queue); err != nil {
+		r.Fatal("SetAsync: %v", err)
+	}
+	total := 0
+	for i := 0; i < oc.Preload; i++ { // queue non-empty, writer parked at the gate
+		emit(h, rec{ID: fmt.Sprintf("pre-%d", i), RequestID: fmt.Sprintf("pre-%d", i)})
+		total++
+	}
+	var closeIssued, closeReturned atomic.Bool
+	var progress, inflightAcross, enteredBefore atomic.Int64
+	var emitted atomic.Int64
+	var wg sync.WaitGroup
+	for d := 0; d < oc.Dispatchers; d++ {
+		wg.Add(1)
+		go func(d int) {
+			defer wg.Done()
+			// After a swap the dispatchers go on for a few emits (new emitter,
+			// must not block either); after Close() a new emit would take the
+			// synchronous path and wait for the gated writer, so they stop.
+			after, maxAfter := 0, 3
+			if oc.Variant == "close" {
+				maxAfter = 0
+			}
+			for k := 0; k < 4000; k++ {
+				before := !closeIssued.Load()
+				if !before {
+					if after >= maxAfter {
+						break
+					}
+					after++
+				}
+				emitted.Add(1)
+				emit(h, rec{ID: fmt.Sprintf("d%d-%d", d, k), RequestID: fmt.Sprintf("d%d-%d", d, k)})
+				progress.Add(1)
+				if before && closeIssued.Load() {
+					enteredBefore.Add(1) // entered OnDispatchEnd before the call was issued, returned after
+				}
+				if !before && !closeReturned.Load() {
+					inflightAcross.Add(1) // ran while the call was in progress
+				}
+			}
+		}(d)
+	}
+	dispatchersDone := make(chan struct{})
+	go func() { wg.Wait(); close(dispatchersDone) }()
+	closerDone := make(chan struct{})
+	go func() {
+		defer close(closerDone)
+		time.Sleep(time.Duration(oc.DelayUs) * time.Microsecond)
+		closeIssued.Store(true)
+		if oc.Variant == "close" {
+			_ = h.Close()
+		} else if err := h.SetAsync(oc.Queue); err != nil {
+			r.Fatal("SetAsync: %v", err)
+		}
+		closeReturned.Store(true)
+	}()
+	witness := func(extra map[string]any) map[string]any {
+		m := map[string]any{"case": oc, "emits_completed": progress.Load(), "emits_started": emitted.Load()}
+		for k, v := range extra {
+			m[k] = v
+		}
+		return m
+	}
+
+	// Quiescence with the gate still shut: all dispatchers back, or no emit
+	// completed for 1 s (this only decides when to LOOK; the verdict needs the
+	// same goroutine parked in enqueue in two dumps one second apart).
+	quiet := false
+	last, lastChange := progress.Load(), time.Now()
+	for !quiet {
+		select {
+		case <-dispatchersDone:
+			quiet = true
+		case <-time.After(50 * time.Millisecond):
+			if p := progress.Load(); p != last {
+				last, lastChange = p, time.Now()
+			} else if closeIssued.Load() && time.Since(lastChange) > time.Second {
+				quiet = true
+			}
+		}
+	}
+	stuck := false
+	select {
+	case <-dispatchersDone:
+	default:
+		stuck = true
+	}
+	if stuck {
+		d1 := dumpGoroutines()
+		time.Sleep(time.Second)
+		d2 := dumpGoroutines()
+		p1, p2 := parkedInEnqueue(d1), parkedInEnqueue(d2)
+		n := 0
+		for id := range p1 {
+			if p2[id] {
+				n++
+			}
+		}
+		gateShut := sk.writes.Load() == 0
+		switch {
+		case n > 0 && gateShut && progress.Load() == last:
+			overlapBlocked.Store(true)
+			r.Violation("async:enqueue-blocked:"+map[string]string{"close": "close-overlap", "swap": "setasync-swap-overlap"}[oc.Variant],
+				fmt.Sprintf("%d dispatcher(s) stay parked on the emitter mutex inside asyncEmitter.enqueue while %s is draining the queue and the writer is gated shut: the enqueue waits for the writer", n, map[string]string{"close": "Close()", "swap": "SetAsync()"}[oc.Variant]),
+				witness(map[string]any{"goroutines": d2}))
+		case strings.Contains(d2, "AccessLogHook).writeRecord") && oc.Variant == "close":
+			// After Close() swapped the emitter out, late dispatchers emit
+			// synchronously and wait for the (gated) writer's turn: that is
+			// synchronous emission, not an enqueue.
+			r.Class("overlap-late-dispatchers-on-sync-path")
+		default:
+			r.Inconclusive(fmt.Sprintf("overlap case %d: dispatchers have not returned but none is parked in enqueue", idx))
+		}
+	}
+	sk.open()
+	for _, ch := range []chan struct{}{dispatchersDone, closerDone} {
+		select {
+		case <-ch:
+		case <-time.After(30 * time.Second):
+			r.Inconclusive(fmt.Sprintf("overlap case %d: goroutines did not finish within 30 s after the gate was opened", idx))
+			return
+		}
+	}
+	_ = h.Close()
+	total += int(emitted.Load())
+	lines, bad := sk.snapshot()
+	if len(bad) > 0 {
+		r.Violation("written-line-unparsable", "a written access-log line is not one JSON object", witness(map[string]any{"line": bad[0]}))
+	}
+	seen := map[string]bool{}
+	var droppedSum int64
+	for _, l := range lines {
+		id, _ := l["method"].(string)
+		if seen[id] {
+			r.Violation("async:record-written-twice", "one record was written twice", witness(map[string]any{"id": id}))
+		}
+		seen[id] = true
+		if d, ok := l["dropped_records"].(json.Number); ok {
+			v, _ := d.Int64()
+			droppedSum += v
+		}
+	}
+	for i := 0; i < oc.Preload; i++ {
+		if !seen[fmt.Sprintf("pre-%d", i)] {
+			r.Violation("async:lost-before-close:overlap-"+oc.Variant, fmt.Sprintf("preloaded record pre-%d was queued (room was left) before the call and never written", i), witness(nil))
+		}
+	}
+	if int64(len(lines))+droppedSum > int64(total) {
+		r.Violation("async:conservation:overcounted:overlap-"+oc.Variant, fmt.Sprintf("emitted=%d written=%d sum(dropped_records)=%d", total, len(lines), droppedSum), witness(nil))
+	}
+	if inflightAcross.Load()+enteredBefore.Load() > 0 {
+		r.Class(map[string]string{"close": "close-overlap", "swap": "setasync-swap-overlap"}[oc.Variant])
+	}
+	if oc.Variant == "swap" && enteredBefore.Load() > 0 {
+		r.Class("dispatcher-entered-before-swap")
+	}
+	if oc.Variant == "close" && enteredBefore.Load() > 0 {
+		r.Class("dispatcher-entered-before-close")
+	}
+	r.Case(fmt.Sprintf("overlap|%s|q=%d|d=%d|w=%d|drop=%d", oc.Variant, oc.Queue, oc.Dispatchers, len(lines), droppedSum))
+	r.Count("overlap.emits", int64(total))
+	r.Count("overlap.emits_entered_before_call_returned_after", enteredBefore.Load())
+	r.Count("overlap.emits_while_call_in_progress", inflightAcross.Load())
+}
+
 func main() {
 	r := mon.Start("C39")
 	defer r.Finish()
-	r.SetRule("sampling cases: rate in {0,1e-9,0.01,0.5,0.999,1} x sync/async x 1..8 producers x 4..27 groups (unary retries, streams with mixed request ids, keyless) with ids searched at the FNV threshold/extremes; async cases: mode in {gated, slow, close, resize} x queue 1..64 x 1..16 producers x 1..24 records; distinct = distinct (mode, parameters, written, dropped) tuples")
+	r.SetRule("sampling cases: rate in {0,1e-9,0.01,0.5,0.999,1} x sync/async x 1..8 producers x 4..27 groups (unary retries, streams with mixed request ids, keyless) with ids searched at the FNV threshold/extremes; async cases: mode in {gated, slow, close, resize} x queue 1..64 x 1..16 producers x 1..24 records; overlap cases: Close()/SetAsync() issued while 8..24 dispatchers hammer an emitter whose writer is parked at the shut gate with a non-empty queue; distinct = distinct (mode, parameters, written, dropped) tuples")
 	r.Assume("records are identified by DispatchInfo.Method; the writer parses what it is handed with encoding/json")
 	r.Assume("'enqueued before close' is judged only for records whose OnDispatchEnd returned before Close()/SetAsync() was called; records racing the call may legitimately go either way")
 	r.Require("sampling-error-record", "sampling-kept-with-rate", "sampling-rate-1-kept", "sampling-multi-record-group-kept", "sampling-multi-record-group-dropped", "sampling-through-async",
 		"async-producers-returned-while-writer-gated", "async-overflow-with-drops:gated", "async-overflow-with-drops:slow", "async-dropped_records-reported",
-		"async-records-before-close", "async-records-racing-close", "async-records-before-resize", "async-double-close")
+		"async-records-before-close", "async-records-racing-close", "async-records-before-resize", "async-double-close",
+		"close-overlap", "setasync-swap-overlap", "dispatcher-entered-before-swap")
 	if err := vgirpc.NewAccessLogHook(&bytes.Buffer{}, "").SetSampleRate(math.NaN()); err == nil {
 		r.Fatal("SetSampleRate(NaN) accepted")
 	}
 
 	nSampling := r.N(800, 40000)
 	nAsync := r.N(1200, 60000)
+	nOverlap := r.N(120, 6000)
 	par := r.N(4, 12)
 	type job struct {
 		kind string
@@ -737,7 +954,9 @@ func main() {
 		go func() {
 			defer wg.Done()
 			for j := range jobs {
-				if j.kind == "s" {
+				if j.kind == "o" {
+					runOverlap(r, j.idx)
+				} else if j.kind == "s" {
 					runSampling(r, j.idx)
 				} else {
 					runAsync(r, j.idx)
@@ -751,6 +970,9 @@ func main() {
 		}
 		if i < nAsync {
 			jobs <- job{"a", i}
+		}
+		if i < nOverlap {
+			jobs <- job{"o", i}
 		}
 	}
 	close(jobs)
